@@ -12,3 +12,5 @@ def run(ctx, rep):
     more2.rule_workinit_failure(mod, rep)
     from ..rules import more3
     more3.rule_create_only_first(mod, rep)
+    from ..rules import more4
+    more4.rule_workfreeall_order(mod, rep)
